@@ -322,7 +322,7 @@ func init() {
 			"types, optional anchor origin / window / nonce / kid, both hash algorithms, drawn matching protocol configuration; intake (real Parse) -> GetAnchoredOperation -> " +
 			"ledger -> observers; fault-free profile strict, faulty profile (delivery faults, retries, crash/restart) eventual. distinct_nontrivial = distinct per-DID histories",
 		Cases: func(master uint64, tier string) []Case {
-			n := 700
+			n := 2000
 			if tier == "thorough" {
 				n = 100000
 			}
